@@ -2695,7 +2695,10 @@ func (data *Data) pruneIndexGroups(id uint64) error {
 					pos := sort.Search(len(rp.IndexGroups[idx].Indexes), func(i int) bool {
 						return rp.IndexGroups[idx].Indexes[i].ID >= id
 					})
-					rp.IndexGroups[idx].Indexes[pos].MarkDelete = true
+					// ids inside a group are not contiguous after ExpandGroups: mark only the index that was named
+					if rp.IndexGroups[idx].Indexes[pos].ID == id {
+						rp.IndexGroups[idx].Indexes[pos].MarkDelete = true
+					}
 				}
 				if rp.IndexGroups[idx].canDelete() {
 					rp.IndexGroups = append(rp.IndexGroups[:idx],
@@ -2721,7 +2724,10 @@ func (data *Data) pruneShardGroups(id uint64) error {
 					pos := sort.Search(len(rp.ShardGroups[idx].Shards), func(i int) bool {
 						return rp.ShardGroups[idx].Shards[i].ID >= id
 					})
-					rp.ShardGroups[idx].Shards[pos].MarkDelete = true
+					// ids inside a group are not contiguous after ExpandGroups: mark only the shard that was named
+					if rp.ShardGroups[idx].Shards[pos].ID == id {
+						rp.ShardGroups[idx].Shards[pos].MarkDelete = true
+					}
 				}
 
 				if !rp.ShardGroups[idx].DeletedAt.IsZero() && rp.ShardGroups[idx].canDelete() {
